@@ -60,7 +60,7 @@ def worker(cfg, tier='quick', timeout_ms=120000):
         v = p.value
         if v['incs'] is True and v['islog'] is True:
             w = v['w'] if isinstance(v['w'], SymInt) else SymInt.lift(v['w'])
-            below.append(z3_and(p.pc + [(w < d).t if d > 0 else z3.BoolVal(True)]))
+            below.append(z3_and(p.pc + [(w < d).t]))
             at.append(z3_and(p.pc + [(w == d).t]))
     col.prove('C17/no-nontrivial-logical-below-d', [], z3_or(below), wit,
               f'd={d}, n={n}: no error with zero syndrome, non-zero logical effect and weight < d')
